@@ -179,6 +179,16 @@ func (x *Exec) materialize(st *State, v Val, t types.Type) Term {
 			x.assume(Term{app(">", r, intLit(0)), "Bool"})
 			return r
 		}
+		if a.Kind == akElem && len(a.Path) == 0 {
+			// &s[i]: an opaque reference, a function of the backing array and the index
+			// (same caveats as above)
+			fn := "elemptr$" + x.S.typeTag(a.RootT)
+			x.declUF(fn, fmt.Sprintf("(Int %s) Int", x.S.Idx()))
+			r := Term{app(fn, a.Ref, a.Idx), "Int"}
+			x.assumed["escaping element address "+fn+": reads through the escaped pointer are unconstrained, writes through it are not tracked"] = true
+			x.assume(Term{app(">", r, intLit(0)), "Bool"})
+			return r
+		}
 		panic(toolErr("interior address escapes (stored/returned/passed): " + t.String()))
 	}
 	if v.Tuple != nil {
